@@ -22,22 +22,17 @@ func checkParsers(w *World, r *Report, rule string) {
 	var ps []parserSpec
 	// the repo's own parser: the repo function the selector can return
 	if sel := findParserSelector(w); sel != nil {
-		for _, b := range sel.Blocks {
-			if ret, ok := b.Instrs[len(b.Instrs)-1].(*ssa.Return); ok {
-				v := ret.Results[0]
-				if ct, ok := v.(*ssa.ChangeType); ok {
-					v = ct.X
+		outs, _ := selectorOutcomes(newTermEnv(w), sel)
+		for _, o := range outs {
+			if fn := o.fn; fn != nil && w.IsRepoFunc(fn) {
+				dup := false
+				for _, p := range ps {
+					if p.fn == fn {
+						dup = true
+					}
 				}
-				if fn, ok := v.(*ssa.Function); ok && w.IsRepoFunc(fn) {
-					dup := false
-					for _, p := range ps {
-						if p.fn == fn {
-							dup = true
-						}
-					}
-					if !dup {
-						ps = append(ps, parserSpec{"Boson (little-endian)", fn, "littleEndian"})
-					}
+				if !dup {
+					ps = append(ps, parserSpec{"Boson (little-endian)", fn, "littleEndian"})
 				}
 			}
 		}
@@ -51,15 +46,10 @@ func checkParsers(w *World, r *Report, rule string) {
 	sel := findParserSelector(w)
 	selected := map[*ssa.Function]bool{}
 	if sel != nil {
-		for _, b := range sel.Blocks {
-			if ret, ok := b.Instrs[len(b.Instrs)-1].(*ssa.Return); ok {
-				v := ret.Results[0]
-				if ct, ok := v.(*ssa.ChangeType); ok {
-					v = ct.X
-				}
-				if fn, ok := v.(*ssa.Function); ok {
-					selected[fn] = true
-				}
+		outs, _ := selectorOutcomes(newTermEnv(w), sel)
+		for _, o := range outs {
+			if o.fn != nil {
+				selected[o.fn] = true
 			}
 		}
 		for fn := range selected {
@@ -368,6 +358,212 @@ func alwaysCalls(w *World, fn *ssa.Function, name string, depth int) bool {
 					return true
 				}
 			}
+		}
+	}
+	return false
+}
+
+// ---- selection outcomes (switch, if-chain or a constant lookup table) ---------------------------------------
+
+type mapEntry struct {
+	key string // exact constant string (quoted)
+	val ssa.Value
+}
+
+var constMapCache = map[*ssa.Global][]mapEntry{}
+var constMapKnown = map[*ssa.Global]bool{}
+
+// constMapGlobal: g is a package variable holding a map that is built once, in the package initialiser, from a literal
+// with constant string keys, and that nothing in the program writes to afterwards (no second store to the variable, no
+// element assignment or delete through a loaded value, the map value handed to no call). Reading it is then the same
+// as a switch over its keys.
+func constMapGlobal(g *ssa.Global) ([]mapEntry, bool) {
+	if constMapKnown[g] {
+		es := constMapCache[g]
+		return es, es != nil
+	}
+	constMapKnown[g] = true
+	if g.Pkg == nil {
+		return nil, false
+	}
+	var entries []mapEntry
+	stores, bad := 0, false
+	seen := map[*ssa.Function]bool{}
+	var scan func(fn *ssa.Function, isInit bool)
+	scan = func(fn *ssa.Function, isInit bool) {
+		if fn == nil || seen[fn] {
+			return
+		}
+		seen[fn] = true
+		for _, b := range fn.Blocks {
+			for _, in := range b.Instrs {
+				switch x := in.(type) {
+				case *ssa.Store:
+					if x.Addr == ssa.Value(g) {
+						mm, ok := x.Val.(*ssa.MakeMap)
+						if !isInit || !ok {
+							bad = true
+							continue
+						}
+						stores++
+						for _, ref := range *mm.Referrers() {
+							switch u := ref.(type) {
+							case *ssa.MapUpdate:
+								k, isC := u.Key.(*ssa.Const)
+								if u.Map != ssa.Value(mm) || !isC || k.Value == nil {
+									bad = true
+								} else {
+									entries = append(entries, mapEntry{k.Value.ExactString(), u.Value})
+								}
+							case *ssa.Store:
+								if u != x {
+									bad = true
+								}
+							default:
+								bad = true
+							}
+						}
+						continue
+					}
+				case *ssa.UnOp:
+					if x.X == ssa.Value(g) {
+						for _, ref := range *x.Referrers() {
+							switch u := ref.(type) {
+							case *ssa.Lookup:
+								if u.X != ssa.Value(x) {
+									bad = true
+								}
+							case *ssa.Range, *ssa.DebugRef:
+							case *ssa.Call:
+								if bi, ok := u.Call.Value.(*ssa.Builtin); !ok || bi.Name() != "len" {
+									bad = true
+								}
+							default:
+								bad = true
+							}
+						}
+						continue
+					}
+				}
+				for _, op := range in.Operands(nil) {
+					if *op == ssa.Value(g) {
+						bad = true
+					}
+				}
+			}
+		}
+		for _, af := range fn.AnonFuncs {
+			scan(af, false)
+		}
+	}
+	for _, p := range g.Pkg.Prog.AllPackages() {
+		if p != g.Pkg && !importsPkg(p, g.Pkg) {
+			continue
+		}
+		for _, m := range p.Members {
+			switch x := m.(type) {
+			case *ssa.Function:
+				scan(x, p == g.Pkg && x.Name() == "init")
+			case *ssa.Type:
+				for _, t := range []types.Type{x.Type(), types.NewPointer(x.Type())} {
+					ms := p.Prog.MethodSets.MethodSet(t)
+					for i := 0; i < ms.Len(); i++ {
+						scan(p.Prog.MethodValue(ms.At(i)), false)
+					}
+				}
+			}
+		}
+	}
+	if bad || stores != 1 || len(entries) == 0 {
+		return nil, false
+	}
+	sort.Slice(entries, func(i, j int) bool { return entries[i].key < entries[j].key })
+	constMapCache[g] = entries
+	return entries, true
+}
+
+// selOutcome is one way a selector function can return: the conditions (normal-form strings) and the value.
+type selOutcome struct {
+	conds []string
+	ret   string
+	fn    *ssa.Function // the function returned, if it is one
+	pos   ssa.Instruction
+	ifs   []*ssa.If
+}
+
+func funcValueOf(v ssa.Value) *ssa.Function {
+	for {
+		switch x := v.(type) {
+		case *ssa.ChangeType:
+			v = x.X
+			continue
+		case *ssa.MakeClosure:
+			if f, ok := x.Fn.(*ssa.Function); ok && len(x.Bindings) == 0 {
+				return f
+			}
+			return nil
+		case *ssa.Function:
+			return x
+		}
+		return nil
+	}
+}
+
+// selectorOutcomes enumerates the outcomes of a loop-free selector. A path that returns table[key], table being a
+// constant map (constMapGlobal), is expanded into one outcome per key plus the zero value when no key matches.
+func selectorOutcomes(e *termEnv, sel *ssa.Function) ([]selOutcome, bool) {
+	paths, complete := enumPaths(e, sel, 64)
+	if !complete {
+		return nil, false
+	}
+	var out []selOutcome
+	for _, p := range paths {
+		var conds []string
+		var ifs []*ssa.If
+		for _, g := range p.Conds {
+			conds = append(conds, g.String())
+			ifs = append(ifs, g.If)
+		}
+		rv := p.Ret.Results[0]
+		expanded := false
+		rv0 := rv
+		for {
+			if ct, ok := rv0.(*ssa.ChangeType); ok {
+				rv0 = ct.X
+				continue
+			}
+			break
+		}
+		if lk, ok := rv0.(*ssa.Lookup); ok && !lk.CommaOk {
+			if ld, ok := lk.X.(*ssa.UnOp); ok {
+				if g, ok := ld.X.(*ssa.Global); ok {
+					if es, ok := constMapGlobal(g); ok {
+						key := p.Term(e, lk.Index).String()
+						var negs []string
+						for _, en := range es {
+							c := append(append([]string{}, conds...), eqStr(en.key, key))
+							o := selOutcome{conds: c, pos: p.Ret, ifs: ifs, fn: funcValueOf(en.val)}
+							o.ret = e.termOf(en.val).String()
+							out = append(out, o)
+							negs = append(negs, "ne("+strings.TrimPrefix(eqStr(en.key, key), "eq("))
+						}
+						out = append(out, selOutcome{conds: append(append([]string{}, conds...), negs...), ret: "nil", pos: p.Ret, ifs: ifs})
+						expanded = true
+					}
+				}
+			}
+		}
+		if !expanded {
+			out = append(out, selOutcome{conds: conds, ret: p.Term(e, rv).String(), fn: funcValueOf(rv), pos: p.Ret, ifs: ifs})
+		}
+	}
+	return out, true
+}
+
+func hasCond(conds []string, want string) bool {
+	for _, c := range conds {
+		if c == want {
+			return true
 		}
 	}
 	return false
